@@ -26,10 +26,22 @@ def make_user_code(spec):
     lx = [{qubits[i]: p for i, p in op} for op in spec['logicals_x']]
     lz = [{qubits[i]: p for i, p in op} for op in spec['logicals_z']]
     dim = spec['dim']
+    # a code that keeps its operators in tables and hands them out as they
+    # are (no copy per call), and that offers a deformation of its own
+    stored = bool(spec.get('stored_dicts'))
+    had = {qubits[i] for i in spec.get('hadamard_on', [])}
 
     class UserCode(StabilizerCode):
         dimension = dim
         label = 'user'
+        deformation_names = ['XZZX'] if spec.get('deformable') else []
+
+        def get_deformation(self, location, deformation_name, **kwargs):
+            if deformation_name != 'XZZX':
+                raise ValueError(deformation_name)
+            if tuple(location) in had:
+                return {'X': 'Z', 'Y': 'Y', 'Z': 'X'}
+            return {'X': 'X', 'Y': 'Y', 'Z': 'Z'}
 
         def get_qubit_coordinates(self):
             return list(qubits)
@@ -44,15 +56,18 @@ def make_user_code(spec):
             return 'generic'
 
         def get_stabilizer(self, location):
-            return dict(ops[tuple(location)])
+            return ops[tuple(location)] if stored else dict(ops[tuple(location)])
 
         def get_logicals_x(self):
-            return [dict(o) for o in lx]
+            return lx if stored else [dict(o) for o in lx]
 
         def get_logicals_z(self):
-            return [dict(o) for o in lz]
+            return lz if stored else [dict(o) for o in lz]
 
-    return UserCode(2)
+    code = UserCode(2)
+    if spec.get('deformable') and spec.get('deform_now'):
+        code.deform('XZZX')
+    return code
 
 
 def _conj(paulis, gate):
